@@ -30,11 +30,11 @@ type simFile struct {
 // fsShared is the state of the simulated fs that tasks share. It is plain
 // memory in fixed arrays, mutated only in norace functions (kernel rule).
 type fsShared struct {
-	cur      [maxFiles]int32           // version set by sequential edit operations
-	calls    [maxOps]int32             // fs calls made so far by each operation
-	observed [maxOps][maxFiles]uint32  // bitmask of versions each operation observed per file
-	reads    [maxOps][maxFiles]int32   // content reads (ReadFile/Open) per operation per file
-	fired    [8]int64                  // fault kinds fired
+	cur      [maxFiles]int32          // version set by sequential edit operations
+	calls    [maxOps]int32            // fs calls made so far by each operation
+	observed [maxOps][maxFiles]uint32 // bitmask of versions each operation observed per file
+	reads    [maxOps][maxFiles]int32  // content reads (ReadFile/Open) per operation per file
+	fired    [8]int64                 // fault kinds fired
 	ncalls   int64
 	curOp    [simrt.MaxTasks]int32 // operation each task is executing
 	faulted  [maxOps]bool          // an injected fault fired during this operation
